@@ -224,7 +224,14 @@ def make_shape_via(s, seed, trace=None, defer=False):
         def finish():
             nonlocal op
             for a, v, ctor in sets:
-                setattr(sh, a, v)
+                if a == "center" and r.random() < 0.4:
+                    # the array the object hands out is overwritten in place and assigned back: the SAME object
+                    held = sh.center
+                    held[...] = v
+                    sh.center = held
+                    v = np.array(v, dtype=float)
+                else:
+                    setattr(sh, a, v)
                 cur[a] = v
                 op = f"({ctor} {new_tok()})"
                 obs(True)
@@ -256,7 +263,13 @@ def make_shape_via(s, seed, trace=None, defer=False):
         def finish():
             nonlocal op
             for a, v, ctor in sets:
-                setattr(sh, a, v)
+                if a == "center" and r.random() < 0.4:
+                    held = sh.center      # overwritten in place and assigned back: the SAME object
+                    held[...] = v
+                    sh.center = held
+                    v = np.array(v, dtype=float)
+                else:
+                    setattr(sh, a, v)
                 cur[a] = v
                 op = f"({ctor} {new_tok()})"
                 cobs(True)
